@@ -23,7 +23,7 @@ NSHARDS = {"quick": 16, "thorough": 16}
 THRESHOLDS = {
     "quick": {"repotests:ambient:gen:gen_dfs?repotests:runs": 50, "c12:not-flagged": 500, "c12:perc-strict-subset": 200, "c12:no-forks-nontrivial": 100, "c12:random-path-ok": 1000,
               "c12:exact-count-checked": 300, "c12:gen_dfs": 500, "c12:gen_wilson": 100, "c12:gen_percolation": 300,
-              "c12:gen_dfs_percolation": 300, "c12:get_connected_component": 500, "c12:threaded-generations": 200, "c12:metadata-rejudged-after-draws": 1000, "c12:random-path-with-options": 3000, "hits:gen_dfs": 1},
+              "c12:gen_dfs_percolation": 300, "c12:get_connected_component": 500, "c12:threaded-generations": 200, "c12:metadata-rejudged-after-draws": 1000, "c12:random-path-with-options": 3000, "c12:option-draws-judged-against-recorded-component": 2000, "c12:refused-option-draws-judged": 50, "hits:gen_dfs": 1},
 }
 THRESHOLDS["thorough"] = dict(THRESHOLDS["quick"])
 ANCHORS = [
@@ -158,16 +158,43 @@ def _random_paths(ctx, maze, g, case, n):
     comp_cells = sorted(g.component_of(tuple(int(x) for x in meta0["start_coord"]))) if meta0.get("start_coord") is not None and g.in_grid(tuple(int(x) for x in meta0["start_coord"])) else []
     opt_sets = [dict(endpoints_not_equal=True), dict(endpoints_not_equal=True, deadend_start=True), dict(deadend_end=True),
                 dict(endpoints_not_equal=True, allowed_start=comp_cells[:3] or None), dict(allowed_end=comp_cells[-2:] or None, endpoints_not_equal=True)]
+    # the component the metadata records, when the metadata is truthful about it (judged elsewhere): endpoints with options are
+    # drawn inside it, and a draw is refused only when the options leave no admissible (start, end) the sampler could have picked
+    rec = None
+    if meta0.get("fully_connected") and g.connected():
+        rec = set(g.component_of((0, 0)))
+    elif not meta0.get("fully_connected") and vis0 and comp_cells and vis0 == set(comp_cells):
+        rec = set(comp_cells)
+    opt_sets += [dict(deadend_start=True, deadend_end=True), dict(deadend_start=True, deadend_end=True, endpoints_not_equal=True)]
     for o in opt_sets:
         o = {k: v for k, v in o.items() if v is not None}
-        for _rep in range(2):
+        S = E = None
+        if rec is not None:
+            S = set(rec) if "allowed_start" not in o else {tuple(int(x) for x in c) for c in o["allowed_start"]} & rec
+            E = set(rec) if "allowed_end" not in o else {tuple(int(x) for x in c) for c in o["allowed_end"]} & rec
+            if o.get("deadend_start"):
+                S = {c for c in S if g.degree(c) == 1}
+            if o.get("deadend_end"):
+                E = {c for c in E if g.degree(c) == 1}
+        for _rep in range(3):
             try:
                 path = maze.generate_random_path(**o)
                 ctx.tally("c12:random-path-with-options")
                 prob = g.path_problems(path)
                 ctx.check(prob is None, "C12/random-path-uses-non-edge", lambda: f"{prob}; options {o}", case)
-            except ValueError:
+                if rec is not None and prob is None and len(path):
+                    ends = (tuple(int(x) for x in path[0]), tuple(int(x) for x in path[-1]))
+                    ctx.tally("c12:option-draws-judged-against-recorded-component")
+                    ctx.check(ends[0] in rec and ends[1] in rec, "C12/endpoints-with-options-outside-recorded-component",
+                              lambda: f"options {o}: endpoints {ends}, recorded component of {len(rec)} cells does not contain both", case)
+            except ValueError as e:
                 ctx.tally("rejected:C12/random-path-with-options:ValueError")
+                if S is not None:
+                    # the sampler picks the start first; with endpoints_not_equal it may then find no end left
+                    may_refuse = (not S) or (not E) or (o.get("endpoints_not_equal") and len(E) == 1 and E <= S)
+                    ctx.tally("c12:refused-option-draws-judged")
+                    ctx.check(bool(may_refuse), "C12/endpoints-with-options-refused-though-reachable-choices-exist",
+                              lambda: f"options {o}: {len(S)} admissible starts, {len(E)} admissible ends inside the recorded component, yet {e!r}"[:400], case)
             except Exception as e:  # noqa: BLE001
                 ctx.violation(f"C12/random-path/exception/{type(e).__name__}", f"options {o}: {e!r}"[:500], case)
                 break
